@@ -332,7 +332,10 @@ def execute(plan, rec):
         return [None if d is None else _triple_of(d) for d in defs]
 
     def _triple_of(d):
-        return (tuple(d.objects), tuple(d.properties), [tuple(r) for r in d.bools])
+        b = d.bools
+        t = (tuple(d.objects), tuple(d.properties), [tuple(r) for r in b])
+        core.scramble(b)   # the caller owns the returned list
+        return t
 
     def audit(receiver, dsts=(), rejected=False):
         for i, (d, m) in enumerate(zip(defs, models)):
@@ -593,6 +596,9 @@ def execute(plan, rec):
         if not out.ok and not rec.want('C13'):
             defs[s] = models[s] = None
         rec.log(out.text())
+        if out.ok and isinstance(out.value, list):
+            core.scramble(out.value)
+            rec.fault('caller_mutates_result')
         audit(s)
 
     if use_simset:
